@@ -1036,31 +1036,6 @@ Fixpoint gval_of (fuel : nat) (n : node) : gval :=
     end
   end.
 
-Fixpoint denotesb (fuel : nat) (v : gval) (n : node) : bool :=
-  match fuel with
-  | O => false
-  | S f =>
-    match v, n with
-    | GBool b, Bool b' => Bool.eqb b b'
-    | GStr s, Str s' => str_eqb s s'
-    | GInt z, Int z' => (z =? z')%Z
-    | GUint u, Int z' => (Z.of_N u =? z')%Z
-    | GFloat x, Float y => (x =? y)%N
-    | GBytes b, Bytes b' => str_eqb b b'
-    | GNamedBytes b, Bytes b' => str_eqb b b'
-    | GNode x, _ => node_eqb x n
-    | GCid c, Link c' => str_eqb c c'
-    | GSlice l, List ns | GArray l, List ns =>
-        (length l =? length ns)%nat && forallb (fun p => denotesb f (fst p) (snd p)) (combine l ns)
-    | GMap m, Map es =>
-        (length m =? length es)%nat &&
-        forallb (fun kv => match map_get (fst kv) es with Some x => denotesb f (snd kv) x | None => false end) m
-    | GPtr x, _ => denotesb f x n
-    | GNilPtr, Null => true
-    | _, _ => false
-    end
-  end.
-
 Definition eng_args (inp impl : node) : verdict :=
   match inp with
   | List [Str op; Str what; desc] =>
